@@ -540,6 +540,9 @@ def run(pm, ctx):
               msg='StructField.check_attr_repr no longer tests `attr is None`',
               key='C02-R9|%s|none-tests' % sf.qualname)
 
+    ctx.import_rules(pm, 'C01', {'C01-R8'}, 'C02-R11',
+                     'parser accumulators are reset for every file: declarations of one file do not '
+                     'leak into the description of another (shared with C01-R8)')
     from ..effects import run_decisions
     from ..ownership import OWN
     run_decisions(pm, ctx, 'C02-RD', OWN['C02'])
